@@ -78,8 +78,15 @@ _FIX_TAKE = [(D, "                sgr_color(&mut groups)\n", "                sg
 
 MUTANTS = [
     # ---- (a) SGR-TABLE
-    {"id": "C06-italic-on-off-swapped", "prop": "C06", "expect": "SGR-TABLE/TTYEncoder::encode/FaceModify/italic-on",
-     "edits": [(E, '(face_modify.italic, b"3", b"23"),', '(face_modify.italic, b"23", b"3"),')]},
+    # (b"3" and b"23" have different array types, so on/off cannot be swapped inside one row; swap across rows / digits instead)
+    {"id": "C06-italic-blink-on-codes-swapped", "prop": "C06", "expect": "SGR-TABLE/TTYEncoder::encode/FaceModify/italic-on",
+     "edits": [(E, '                    (face_modify.italic, b"3", b"23"),\n                    (face_modify.blink, b"5", b"25"),\n',
+                '                    (face_modify.italic, b"5", b"23"),\n                    (face_modify.blink, b"3", b"25"),\n')]},
+    {"id": "C06-italic-off-code-25", "prop": "C06", "expect": "SGR-TABLE/TTYEncoder::encode/FaceModify/italic-off",
+     "edits": [(E, '(face_modify.italic, b"3", b"23"),', '(face_modify.italic, b"3", b"25"),')]},
+    {"id": "C06-italic-on-off-swapped-in-decoder", "prop": "C06", "expect": "SGR-TABLE/TTYEncoder::encode/FaceModify/italic-on",
+     "edits": [(D, "            Some(3) => face.italic = Some(true),\n            Some(23) => face.italic = Some(false),\n",
+                "            Some(3) => face.italic = Some(false),\n            Some(23) => face.italic = Some(true),\n")]},
     {"id": "C06-decoder-23-is-blink", "prop": "C06", "expect": "SGR-TABLE/TTYEncoder::encode/FaceModify/italic-off",
      "edits": [(D, "Some(23) => face.italic = Some(false),", "Some(23) => face.blink = Some(false),")]},
     {"id": "C06-encoder-double-underline-code", "prop": "C06", "expect": "SGR-TABLE/TTYEncoder::encode/FaceModify/underline-Double",
